@@ -1,10 +1,8 @@
 """C02 - segment metadata inheritance never changes what is read.
 MC: TdmsSegments invariants over all valid encodings; GEN: every reachable encoded file replayed into the real
 reader (eager and lazy) and compared with the specification's explicit view; forbidden encodings must raise."""
-import json
-
-from .. import tlc
-from ..common import Check, Replayer, absorb, Machinery
+from ..common import Check
+from ..genrun import run_config
 
 RULE = ("TLC enumerates every sequence of <= MaxSegs explicit segments x every encoding the rewrite rules R1-R4 allow "
         "(plus one forbidden encoding as last segment); each reachable state is one file; a case is non-trivial if at "
@@ -16,34 +14,16 @@ CONFIGS = {
 }
 
 
-def run_config(chk, module, cfg, overrides, modes, rots, worker="replay_segments_case", be_variants=None):
-    rp = Replayer("harness.segments", worker)
-    ov = dict(overrides)
-    ov["GenPrint"] = "TRUE"
-    cnt = [0]
-
-    def on_gen(rec):
-        cnt[0] += 1
-        if cnt[0] % 997 == 1:
-            chk.sample({"file": rec["file"], "expected_view": rec["view"], "status": rec["status"]})
-        rp.add({"rec": rec, "seed": chk.seed, "modes": modes, "rot": (cnt[0] + chk.seed) % rots,
-                "be_variants": be_variants})
-
-    res = tlc.run(module, cfg, name=chk.prop + "-" + module, overrides=ov, on_gen=on_gen)
-    results = rp.finish()
-    chk.add_tlc("%s %s" % (cfg, json.dumps(overrides, sort_keys=True)), res)
-    if res.violated:
-        chk.model_violation(cfg, res)
-    if res.gen != res.distinct:
-        raise Machinery("GEN cases (%d) != distinct states (%d)" % (res.gen, res.distinct))
-    absorb(chk, results)
-    return res
+def sample_fn(rec):
+    return {"file": rec["file"], "expected_view": rec["view"], "status": rec["status"]}
 
 
 def run(tier):
     chk = Check("C02", tier)
     for (module, cfg, ov, modes, rots) in CONFIGS[tier]:
-        run_config(chk, module, cfg, ov, modes, rots)
+        run_config(chk, module, cfg, ov,
+                   lambda rec, i: {"rec": rec, "seed": chk.seed, "modes": modes, "rot": (i + chk.seed) % rots},
+                   "harness.segments", "replay_segments_case", sample_fn=sample_fn)
     chk.assumptions += ["independent byte encoder harness/enc.py lays out what the specification's encoded file says",
                         "TLC explores the bounded model exhaustively"]
     return chk.finish("model_checking", RULE)
